@@ -41,6 +41,32 @@ def gen_case(seed, tier="quick"):
         entry = {"kind": "domain", "method": "grid", "d": d} if rs.random() < 0.5 else {"kind": "sampler", "cls": "Grid", "d": d}
         return {"format": 1, "property": ID, "engine": "geosim", "seed": seed, "rng": H(seed, "rng"), "dom": dom,
                 "pspace": [], "prows": [], "entry": entry, "fault": None}
+    if c < 0.11:
+        # partial evaluations of one original whose shape function has TWO outer variables (t, s)
+        rq = rnd(seed, "pe")
+        a2 = lambda base, lo=0.1, hi=0.6: ["aff2", GG.q(base), GG.q(rq.uniform(lo, hi)), "t", GG.q(rq.uniform(lo, hi)), "s"]
+        k = rq.choice(("circ", "iv", "par", "sph"))
+        if k == "circ":
+            dom = {"k": "circ", "var": "x", "c": [GG.q(rq.uniform(-2, 2)), GG.q(rq.uniform(-2, 2))], "r": a2(rq.uniform(0.3, 1.0))}
+        elif k == "sph":
+            dom = {"k": "sph", "var": "x", "c": [GG.q(rq.uniform(-2, 2)) for _ in range(3)], "r": a2(rq.uniform(0.3, 1.0))}
+        elif k == "iv":
+            a = GG.q(rq.uniform(-3, 0))
+            dom = {"k": "iv", "var": "x", "a": a, "b": a2(a + rq.uniform(0.5, 2.0))}
+        else:
+            ox, oy = GG.q(rq.uniform(-2, 1)), GG.q(rq.uniform(-2, 1))
+            dom = {"k": "par", "var": "x", "o": [ox, oy], "c1": [a2(ox + rq.uniform(0.5, 2.0)), oy], "c2": [ox, GG.q(oy + rq.uniform(0.5, 2.0))]}
+        if rq.random() < 0.3 and k != "iv":
+            dom = {"k": "bnd", "d": dom}
+        ops = []
+        for _ in range(rq.choice((2, 3, 4))):
+            tv, sv = GG.q(rq.uniform(0, 1)), GG.q(rq.uniform(0, 1))
+            which = rq.choice(("t", "s", "t", "s", "ts"))
+            fix = {"t": tv} if which == "t" else ({"s": sv} if which == "s" else {"t": tv, "s": sv})
+            rest = {v: x for v, x in (("t", tv), ("s", sv)) if v not in fix}
+            ops.append({"fix": fix, "rest": rest, "recheck": rq.random() < 0.4})
+        return {"format": 1, "property": ID, "seed": seed, "rng": H(seed, "rng"), "fault": None, "engine": "volumesim",
+                "kind": "pe", "dom": dom, "ops": ops, "full": {"t": GG.q(rq.uniform(0, 1)), "s": GG.q(rq.uniform(0, 1))}}
     if c < 0.80:
         return geo_cases.gen_case(ID, seed)
     rng = np.random.default_rng(H(seed, "ref") % (2 ** 32))
@@ -84,6 +110,8 @@ def gen_case(seed, tier="quick"):
 def run_case(case):
     if case.get("engine") == "volumesim":
         from .. import volumesim
+        if case["kind"] == "pe":
+            return volumesim.run_pe(case)
         return volumesim.run_count(case) if case["kind"] == "count" else volumesim.run_hist(case)
     rec = geosim.run_case(case, props=(ID,))
     finish(rec, case, judged_key='volumes_direct')
@@ -92,7 +120,7 @@ def run_case(case):
 
 def shrink(case):  # noqa: F811 (overrides the geometry shrinker for the history cases)
     if case.get("engine") == "volumesim":
-        if case["kind"] == "hist" and len(case["ops"]) > 1:
+        if case["kind"] in ("hist", "pe") and len(case["ops"]) > 1:
             for i in range(len(case["ops"])):
                 yield dict(case, ops=case["ops"][:i] + case["ops"][i + 1:])
         return
